@@ -433,11 +433,11 @@ class List(list, base.Symbolic, pg_typing.CustomTyping):
       if old_value is value:
         return None
 
-    new_value = self._formalized_value(index, value)
     if ((should_insert or index >= len(self))
         and self.max_size is not None and len(self) >= self.max_size):
       raise ValueError(
           self._error_message(f'List reached its max size {self.max_size}.'))
+    new_value = self._formalized_value(index, value)
     if index < len(self):
       if should_insert:
         list.insert(self, index, new_value)
@@ -453,6 +453,7 @@ class List(list, base.Symbolic, pg_typing.CustomTyping):
         # Detach old value from object tree.
         if isinstance(old_value, base.TopologyAware):
           old_value.sym_setparent(None)
+          old_value.sym_setpath(utils.KeyPath())
     else:
       super().append(new_value)
     return base.FieldUpdate(
@@ -552,7 +553,7 @@ class List(list, base.Symbolic, pg_typing.CustomTyping):
                               'Use \'rebind\' method instead.'))
     if isinstance(index, slice):
       start, stop, step = index.indices(len(self))
-      replacements = [self._formalized_value(i, v) for i, v in enumerate(value)]
+      replacements = list(value)
       if step == 1:
         slice_size = max(0, stop - start)
         new_size = len(self) - slice_size + len(replacements)
@@ -645,6 +646,7 @@ class List(list, base.Symbolic, pg_typing.CustomTyping):
       list.__delitem__(self, i)
       if isinstance(old_value, base.TopologyAware):
         old_value.sym_setparent(None)
+        old_value.sym_setpath(utils.KeyPath())
       updates.append(base.FieldUpdate(
           self.sym_path + i, self, field, old_value, pg_typing.MISSING_VALUE))
     self._reindex_children(indices[0])
@@ -792,8 +794,10 @@ class List(list, base.Symbolic, pg_typing.CustomTyping):
     if base.treats_as_sealed(self):
       raise base.WritePermissionError('Cannot sort a sealed List.')
     old_items = list(self.sym_values())
-    super().sort(key=key, reverse=reverse)
-    self._on_reordered(old_items)
+    try:
+      super().sort(key=key, reverse=reverse)
+    finally:
+      self._on_reordered(old_items)
 
   def reverse(self) -> None:
     """Reverse the elements of the list in place."""
